@@ -1572,6 +1572,42 @@ func init() {
 
 func intrUTF16Decode(e *Exec, st *State, fr *Frame, args []Val, in ssa.Instruction, rt types.Type) []callRes {
 	s := args[0].(*SliceVal)
+	// code units of concrete count, none provably a surrogate: one code point each (RFC 2781 2.2)
+	if s.Len.IsConst() && s.Len.C.IsInt64() && s.Len.C.Int64() <= 256 && (s.Obj != 0 || s.Len.C.Sign() == 0) && s.Off.IsConst() {
+		n := int(s.Len.C.Int64())
+		us := make([]*Term, n)
+		goal := e.C.True()
+		if n > 0 {
+			av := e.sliceBacking(st, s)
+			for i := range us {
+				us[i] = e.sel(av.C, e.C.Add(s.Off, e.idx(int64(i))))
+				if e.IntMode {
+					goal = e.C.And(goal, e.C.Or(e.C.ILt(us[i], e.C.Inti(0xD800)), e.C.ILt(e.C.Inti(0xDFFF), us[i])))
+				} else {
+					goal = e.C.And(goal, e.C.Or(e.C.ULt(us[i], e.C.BVu(0xD800, 16)), e.C.ULt(e.C.BVu(0xDFFF, 16), us[i])))
+				}
+			}
+		}
+		if goal.IsTrue() || (!goal.IsFalse() && e.quickValid(st, goal)) {
+			es := e.elemSort(types.Typ[types.Int32])
+			vals := make([]*Term, n)
+			for i, u := range us {
+				if e.IntMode {
+					vals[i] = u
+				} else {
+					vals[i] = e.C.ZExt(u, 32)
+				}
+			}
+			r := e.constScalarSlice(st, types.Typ[types.Int32], make([]int64, n), "utf16dec")
+			if n > 0 {
+				rav := e.sliceBacking(st, r)
+				nav := *rav
+				nav.C = &ArrLit{Vals: vals, Rest: &ArrFill{Val: e.C.NumConst(big.NewInt(0), es)}}
+				st.Heap[r.Obj] = &nav
+			}
+			return []callRes{{st, r}}
+		}
+	}
 	out := e.freshSliceObj(st, types.Typ[types.Int32], "utf16dec")
 	e.metaAll[out.Obj].Growable = false
 	st.assume(e.leIdx(out.Len, s.Len))
